@@ -172,40 +172,27 @@ Proof. exact sortedmulti_perm_refuted. Qed.
 Print Assumptions C16_sortedmulti_perm_refuted.
 
 (* ---------------------------------------------------------------- multipath_split *)
-(* When every multipath key has the same number n of alternatives the split is exactly
-   [select i d | i < n], each element single-path; without multipath keys it is [d]; a key
-   with fewer alternatives than the first multipath key gives the length-mismatch error. *)
-Theorem C16_multipath_split_partial : forall d,
+(* FULL STATEMENT (holds for the code after /repo 4fc1acf3).  Without multipath keys the
+   split is [d]; when every multipath key has the same number n of alternatives it is exactly
+   [select i d | i < n], each element single-path; and whenever two multipath keys have
+   different numbers of alternatives the result is the length-mismatch error.
+   (Every multipath key has at least one path: the DerivPaths invariant.) *)
+Theorem C16_multipath_split : forall d,
   ((forall k, In k (desc_keys d) -> key_is_multipath k = false) -> into_single_descriptors d = KOk [d]) /\
   (forall n, (exists k, In k (desc_keys d) /\ key_is_multipath k = true) ->
              (forall k, In k (desc_keys d) -> key_is_multipath k = true -> n_paths k = n) ->
              into_single_descriptors d = KOk (map (fun i => select_desc i d) (seq 0 n))) /\
   (forall i k, In k (desc_keys (select_desc i d)) -> key_is_multipath k = false) /\
-  (forall n, first_multipath_len (desc_keys d) = Some n ->
-             (exists k, In k (desc_keys d) /\ key_is_multipath k = true /\ (n_paths k < n)%nat) ->
-             into_single_descriptors d = KErr ELenMismatch).
+  (forall k1 k2,
+     (forall k, In k (desc_keys d) -> key_is_multipath k = true -> (0 < n_paths k)%nat) ->
+     In k1 (desc_keys d) -> In k2 (desc_keys d) ->
+     key_is_multipath k1 = true -> key_is_multipath k2 = true -> n_paths k1 <> n_paths k2 ->
+     into_single_descriptors d = KErr ELenMismatch).
 Proof.
   exact (fun d => conj (split_no_multipath d) (conj (split_uniform d)
-                 (conj (fun i => select_desc_single i d) (split_error_shorter d)))).
+                 (conj (fun i => select_desc_single i d) (split_error_mismatch d)))).
 Qed.
-Print Assumptions C16_multipath_split_partial.
-
-(* FULL STATEMENT (DESIGN "error otherwise"): different tuple lengths always give an error.
-   Refuted: keys with MORE alternatives than the first multipath key are silently truncated
-   (C16_split_truncates says exactly what happens).  Witness tr(X/<0;1;2>/star,pk(Y/<2;3>/star)). *)
-Theorem C16_multipath_split_refuted : exists d k1 k2 l,
-  In k1 (desc_keys d) /\ In k2 (desc_keys d) /\
-  key_is_multipath k1 = true /\ key_is_multipath k2 = true /\ n_paths k1 <> n_paths k2 /\
-  into_single_descriptors d = KOk l /\ length l = 2%nat.
-Proof. exact split_mismatch_refuted. Qed.
-Print Assumptions C16_multipath_split_refuted.
-
-Theorem C16_split_truncates : forall d n,
-  first_multipath_len (desc_keys d) = Some n ->
-  (forall k, In k (desc_keys d) -> key_is_multipath k = true -> (n <= n_paths k)%nat) ->
-  into_single_descriptors d = KOk (map (fun i => select_desc i d) (seq 0 n)).
-Proof. exact split_truncates. Qed.
-Print Assumptions C16_split_truncates.
+Print Assumptions C16_multipath_split.
 
 (* the parser's expansion of  pre/<a0;...>/post  is the list of paths pre ++ a :: post *)
 Theorem C16_expand_paths : forall pre a0 others post,
@@ -283,6 +270,10 @@ Proof. split; [intros k [<-|[<-|[]]]; reflexivity | reflexivity]. Qed.
 
 Example sortkey_injective_example : sortkey_injective pk_comp [mkPk [2; 1] [2; 1] [1] true; mkPk [3; 0] [3; 0] [0] true].
 Proof. intros a b [<-|[<-|[]]] [<-|[<-|[]]] H; try reflexivity; discriminate. Qed.
+
+(* the witness that refuted "error otherwise" before the repair is now rejected *)
+Example former_mismatch_witness_rejected : into_single_descriptors mismatch_witness = KErr ELenMismatch.
+Proof. exact mismatch_witness_rejected. Qed.
 
 Example split_example :
   into_single_descriptors (DWpkh (KMulti None 0 [[Step false 0]; [Step false 1]] WUnhardened))
